@@ -54,7 +54,7 @@ type brokerChoose struct {
 }
 
 func (b *brokerChoose) Choose(_ string, _ int) ([]*models.PhysicalPlan, error) { return b.plans(), nil }
-func (b *brokerChoose) GetDatabaseCfg(_ string) (models.Database, bool)         { return b.cfg, true }
+func (b *brokerChoose) GetDatabaseCfg(_ string) (models.Database, bool)        { return b.cfg, true }
 
 // ---- receivers' environment ----------------------------------------------------------------
 
